@@ -13,7 +13,8 @@ use vmodel::par::par_for;
 use vmodel::{Reporter, Tier};
 
 pub const UNIVERSE: [&str; 12] = ["en", "en-US", "en-GB", "fr", "fr-FR", "fr-CA", "de", "de-Latn", "de-Latn-DE", "de-DE", "de-DE-1996", "und"];
-pub const REQUEST_ONLY: [&str; 4] = ["it", "en-us", "garbage!", " fr"];
+// (tags are case-insensitive: `EN-gb`, `FR` are the requests `en-GB`, `fr`)
+pub const REQUEST_ONLY: [&str; 6] = ["it", "en-us", "garbage!", " fr", "EN-gb", "FR"];
 
 static ICU: OnceLock<Vec<IcuLocale>> = OnceLock::new();
 fn icu() -> &'static [IcuLocale] {
